@@ -1,21 +1,111 @@
 #!/usr/bin/env python3-vt
-"""C05 — select semantics: the timeout clause only (E2, Kani on the real handle_select_timeout)."""
-import os, sys
+"""C05 — select semantics: the timeout clause only (E2, Kani on the real handle_select_timeout and
+on the duration conversion written at its call site).
+
+Two harnesses, appended to a scratch copy of quiver-core/src/executor.rs:
+
+  c05_timeout_rule            the kernel: handle_select_timeout fires iff elapsed >= max(duration, 0)
+                              (only when the kernel still takes an i64 duration)
+  c05_timeout_from_duration   the path from the source value to the kernel: the statements between
+                              `Value::Integer(timeout_ms) => {` and the call of handle_select_timeout
+                              in process_select_sources are copied VERBATIM from the current source
+                              into the harness, applied to a symbolic arbitrary-precision duration
+                              (every 128-bit integer, through the real num-bigint), and the kernel
+                              is called with the expression the source passes.  Claim: a timeout
+                              never fires earlier than its mathematical duration, and a duration
+                              in the i64 range fires exactly when it is due.
+"""
+import os, re, sys
 sys.path.insert(0, os.path.dirname(os.path.dirname(os.path.abspath(__file__))))
 from checks.common import Report
 from checks.kani_check import run_kani_property, VERIF
 
 rep = Report("C05")
-harness = open(os.path.join(VERIF, "kani", "executor_harness.rs")).read()
-run_kani_property(rep, "quiver-core", {"src/executor.rs": harness}, [
-    {"name": "c05_timeout_rule", "what": "a timeout source fires iff elapsed >= max(duration, 0): never earlier than its duration, a non-positive one at once; yields nil",
-     "need_cover": ["positive timeout fires", "timeout not yet due"]},
-])
-rep.bounds = {"timeout": "all i64", "start/now": "all u64 clock values (including now < start)"}
+K = os.path.join(VERIF, "kani")
+src = open("/repo/quiver-core/src/executor.rs").read()
+
+parts = [open(os.path.join(K, "executor_preamble.rs")).read()]
+harnesses = []
+
+sig = re.search(r"fn handle_select_timeout\(\s*&mut self,\s*(\w+):\s*(\w+),", src)
+kernel_type = sig.group(2) if sig else None
+if kernel_type == "i64":
+    parts.append(open(os.path.join(K, "c05_harness.rs")).read())
+    harnesses.append({"name": "c05_timeout_rule",
+                      "what": "a timeout source fires iff elapsed >= max(duration, 0): never earlier than its duration, a non-positive one at once; yields nil",
+                      "need_cover": ["positive timeout fires", "timeout not yet due"]})
+else:
+    rep.extra["kernel_harness_skipped"] = "handle_select_timeout no longer takes an i64 duration (%s): only the end-to-end harness applies" % kernel_type
+
+m = re.search(r"Value::Integer\((\w+)\)\s*=>\s*\{(?P<pre>.*?)self\s*\.\s*handle_select_timeout\(\s*(?P<arg>[^,()]+(?:\([^()]*\))*[^,()]*),", src, re.S)
+if not m:
+    rep.inconc("the call of handle_select_timeout for an integer source was not found in process_select_sources (extraction failed)")
+else:
+    var = m.group(1)
+    lets = re.findall(r"let\s+[^;]+;", m.group("pre"))
+    arg = m.group("arg").strip()
+    rep.extra["extracted_conversion"] = {"bound_name": var, "statements": lets, "argument": arg}
+    parts.append('''
+    /// C05 (timeout clause, from the source value): the conversion statements of
+    /// process_select_sources, verbatim, on an arbitrary-precision duration.
+    #[kani::proof]
+    #[kani::unwind(6)]
+    #[kani::stub(std::hash::RandomState::new, stub_random_state)]
+    fn c05_timeout_from_duration() {
+        #[allow(unused_imports)]
+        use num_traits::ToPrimitive;
+        let x: i128 = kani::any();
+        let big = num_bigint::BigInt::from(x);
+        let %(var)s = &big;
+        // ---- verbatim from process_select_sources ----
+        %(lets)s
+        // ----------------------------------------------
+        let start: u64 = kani::any();
+        let now: u64 = kani::any();
+        // clocks below 2^62 ms (146 million years of uptime): beyond that an i64-clamped
+        // "unbounded" duration can come due, which is outside the claim
+        kani::assume(start < (1u64 << 62) && now < (1u64 << 62));
+        let mut e = fresh(0);
+        let r = e.handle_select_timeout(%(arg)s, start, now);
+        let fired = match &r {
+            Ok(Some(v)) => {
+                assert!(v.is_nil(), "a timeout yields nil");
+                true
+            }
+            Ok(None) => false,
+            Err(_) => {
+                assert!(false, "handle_select_timeout never errors");
+                false
+            }
+        };
+        let elapsed: i128 = if now >= start { (now - start) as i128 } else { 0 };
+        // never earlier than the duration, whatever its magnitude
+        assert!(!fired || x <= 0 || elapsed >= x, "a timeout fired before its duration had elapsed");
+        // durations in the i64 range fire exactly when due
+        if x >= i64::MIN as i128 && x <= i64::MAX as i128 {
+            assert!(fired == (x <= 0 || elapsed >= x), "a due timeout did not fire");
+        }
+        kani::cover!(fired && x > 0, "positive duration fires");
+        kani::cover!(!fired && x > u64::MAX as i128, "duration beyond 64 bits waits");
+        kani::cover!(fired && x < i64::MIN as i128, "hugely negative duration fires");
+        std::mem::forget(r);
+        std::mem::forget(e);
+        std::mem::forget(big);
+    }
+''' % {"var": var, "lets": "\n        ".join(lets), "arg": arg})
+    harnesses.append({"name": "c05_timeout_from_duration",
+                      "what": "from the source value: the duration conversion of process_select_sources (verbatim) + the kernel never fire a timeout before its mathematical duration (all 128-bit durations), and fire an i64-range duration exactly when due",
+                      "need_cover": ["positive duration fires", "duration beyond 64 bits waits"]})
+parts.append("}\n")
+
+if harnesses:
+    run_kani_property(rep, "quiver-core", {"src/executor.rs": "\n".join(parts)}, harnesses)
+rep.bounds = {"duration": "kernel: all i64; end to end: every integer in [-2^127, 2^127)", "start/now": "kernel: all u64 clock values (including now < start); end to end: below 2^62 ms"}
 rep.assumptions = [
     "stub: std::hash::RandomState::new -> constant keys",
+    "the conversion statements are taken textually from process_select_sources (between `Value::Integer(..) => {` and the call of handle_select_timeout); the rest of that function is NOT executed",
     "decides ONLY the timeout clause; source priority, mailbox cursors, filter re-entry and error propagation live in process_select_sources/scan_mailbox_for_message, which own Values and the process map and are outside Kani's reach (DESIGN §2)",
 ]
 sys.exit(rep.finish(
     rule="one obligation = one Kani harness over all values of its symbolic inputs",
-    trusted=["Kani 0.68 / CBMC 6.11 (CaDiCaL)", "the appended harness module kani/executor_harness.rs"]))
+    trusted=["Kani 0.68 / CBMC 6.11 (CaDiCaL)", "the harness modules kani/executor_preamble.rs, kani/c05_harness.rs and the generated end-to-end harness in checks/c05.py"]))
